@@ -94,7 +94,7 @@ pub static MAXLEN: AtomicU64 = AtomicU64::new(u64::MAX);
 
 pub fn opts_for(prop: &str) -> RunOpts {
     if LIGHT.load(Ordering::Relaxed) {
-        return RunOpts { trace: false, heavy_audit: false, scan_every: 16 };
+        return RunOpts { trace: false, heavy_audit: false, scan_every: 16, lean: true };
     }
     RunOpts {
         trace: false,
@@ -104,6 +104,7 @@ pub fn opts_for(prop: &str) -> RunOpts {
             "C11" | "C03" => 8,
             _ => 4,
         },
+        lean: false,
     }
 }
 
